@@ -192,6 +192,51 @@ pub fn dyn_probe(id: usize, bounds: (bool, bool), want_send: bool) -> Probe {
     }
 }
 
+/// unsized payloads (`[W]`, `str`, `dyn Trait + bounds`) behind every handle kind that takes `?Sized`: the
+/// explicit marker impls must cover them (an `unsafe impl<T: Send + Sync> Send` without `?Sized` silently drops
+/// slices, str and trait objects)
+pub fn unsized_probes(start: usize) -> Vec<Probe> {
+    let mut out = vec![];
+    let mut id = start;
+    let kinds: [(&str, &str, bool); 4] = [
+        ("Arc", "triomphe::Arc<{}>", true),
+        ("ArcBorrow", "triomphe::ArcBorrow<'static, {}>", true),
+        ("UniqueArc", "triomphe::UniqueArc<{}>", false),
+        ("Arc<HeaderSlice<(),_>>", "triomphe::Arc<triomphe::HeaderSlice<(), {}>>", true),
+    ];
+    // (payload source, is Send, is Sync)
+    let payloads: [(&str, bool, bool); 9] = [
+        ("[u8]", true, true),
+        ("str", true, true),
+        ("[std::cell::Cell<u8>]", true, false),
+        ("[std::rc::Rc<u8>]", false, false),
+        ("[std::sync::MutexGuard<'static, u8>]", false, true),
+        ("dyn std::fmt::Debug + Send + Sync", true, true),
+        ("dyn std::fmt::Debug + Send", true, false),
+        ("dyn std::fmt::Debug + Sync", false, true),
+        ("dyn std::fmt::Debug", false, false),
+    ];
+    for (kn, tpl, arc_like) in kinds {
+        for (pl, send, sync) in payloads {
+            for want_send in [true, false] {
+                let ok = if arc_like { send && sync } else if want_send { send } else { sync };
+                let ty = tpl.replace("{}", pl);
+                let tr = if want_send { "Send" } else { "Sync" };
+                out.push(Probe {
+                    class: "auto",
+                    name: format!("unsized_{}", id),
+                    body: format!("    fn need<X: ?Sized + {}>() {{}}\n    need::<{}>();", tr, ty),
+                    expect_reject: !ok,
+                    what: format!("{}: {} (unsized payload behind {})", ty, tr, kn),
+                    nontrivial: true,
+                });
+                id += 1;
+            }
+        }
+    }
+    out
+}
+
 /// `fn p<T: B>() { need::<K<T>>() }` for every bound set
 pub fn generic_probe(id: usize, kind: usize, bounds: (bool, bool), want_send: bool) -> Probe {
     let (kname, n, tpl, rule) = KINDS[kind];
@@ -806,6 +851,9 @@ pub fn generate(tier: Tier, seed: u64) -> Vec<Probe> {
             id += 1;
         }
     }
+    let us = unsized_probes(id);
+    id += us.len();
+    v.extend(us);
     v.extend(borrow_probes());
     // the same borrow / dropck templates against the nightly `unstable_dropck_eyepatch` configuration, where
     // Arc's Drop impl is `#[may_dangle]` and only the PhantomData<T> marker keeps dropck honest
